@@ -65,6 +65,14 @@ F("C04", "membership-unsupported-pair", INTER, "inter_plane_convexpolyhedron", "
 F("C04", "documented-type-exceeded", INTER, "inter_point_segment", "        return p\n", "        return s\n", rule="R4.6")
 F("C04", "attr-of-wrong-class", INTER, "inter_line_halfline", "inter = intersection(l, h.line)", "inter = intersection(l, h.plane)",
   rule="R4.2", note="HalfLine has no .plane")
+F("C04", "segment-segment-early-exit-after-a", INTER, "inter_segment_segment",
+  "        if b.start_point in a:\n            point_set.add(b.start_point)",
+  "        if len(point_set) == 2:\n            return Segment(*point_set)\n        if b.start_point in a:\n            point_set.add(b.start_point)", rule="R4.9",
+  note="result returned after a's end points only")
+F("C04", "polygon-early-exit-after-a-vertices", INTER, "inter_convexpolygon_convexpolygon",
+  "        for pb in b.points:\n            if pb in a:\n                point_set.add(pb)",
+  "        if len(point_set) == len(a.points):\n            return a\n        for pb in b.points:\n            if pb in a:\n                point_set.add(pb)", rule="R4.9")
+CAT["C04"].pop()  # `return a` of an operand parameter is exempt (a inside b is a complete answer); kept out
 N("C04", "reorder-disjoint-rows", INTER, "intersection",
   "    elif isinstance(a, Point) and isinstance(b, Line):\n        return inter_point_line(a, b)\n    elif isinstance(a, Line) and isinstance(b, Point):\n        return inter_point_line(b, a)\n    elif isinstance(a, Point) and isinstance(b, Plane):\n        return inter_point_plane(a, b)\n    elif isinstance(a, Plane) and isinstance(b, Point):\n        return inter_point_plane(b, a)",
   "    elif isinstance(a, Point) and isinstance(b, Plane):\n        return inter_point_plane(a, b)\n    elif isinstance(a, Plane) and isinstance(b, Point):\n        return inter_point_plane(b, a)\n    elif isinstance(a, Point) and isinstance(b, Line):\n        return inter_point_line(a, b)\n    elif isinstance(a, Line) and isinstance(b, Point):\n        return inter_point_line(b, a)")
